@@ -213,7 +213,7 @@ def describe():
                  "characters, NUL followed by a digit, non-ASCII, combining characters, percent signs, trigraph-like text; operators printed "
                  "verbatim (% on doubles, Math.max/min with mixed operand kinds, ~ on flags, casts); and general documents of C02's generator. "
                  "Build step: g++ and clang++ -fsyntax-only in both QT_NO_DEBUG settings plus the sanitizer build. Runtime: histories as in C02 "
-                 "with ASan+UBSan; no report, no spurious 'binding loop detected', literal-bearing bindings equal the source strings."),
+                 "with ASan+UBSan; no report, no spurious 'binding loop detected', literal-bearing bindings equal the source strings. 30% of the cases inject a failing or short write into the invocation that emits the header (failing runs are repeated, a run that exits 0 is taken at its word); every header must be whole before it is compiled; action documents (QAction children, static separators, actions list) are compile-only."),
         "fingerprint": "sha256 of document text; sha256 of (document, history lines)",
         "components": {
             "real": ["qmluic generate-ui release binary built from /repo working tree", "the emitted uisupport_*.h compiled unmodified by g++ 12 and clang++ 14 (-std=c++17)", "the emitted .ui"],
